@@ -11,7 +11,11 @@ git -C /repo worktree add -q $WT HEAD || exit 2
 cleanup() { git -C /repo worktree remove --force $WT; }
 trap cleanup EXIT
 cd $WT
-if ! git apply $DIR/patch.diff; then echo "RESULT $ID patch-does-not-apply"; exit 1; fi
+# the repository may have been repaired near the seeded lines since the change was stored: fall back to patch(1) with fuzz
+APPLY="git apply"; UNAPPLY="git apply -R"
+if ! git apply $DIR/patch.diff 2>/dev/null; then
+  if patch -p1 -s --no-backup-if-mismatch < $DIR/patch.diff >/dev/null 2>&1; then APPLY="patch -p1 -s --no-backup-if-mismatch -i"; UNAPPLY="patch -p1 -s -R --no-backup-if-mismatch -i"; echo "NOTE patch applied with fuzz (the repository changed near it since it was stored)"; else echo "RESULT $ID patch-does-not-apply"; exit 1; fi
+fi
 if ! GOFLAGS= go build ./... ; then echo "RESULT $ID does-not-build"; exit 1; fi
 if [ "${SKIP_SUITE:-0}" != "1" ]; then
   S=$( (GOFLAGS= go test -vet=off -count=1 ./... 2>&1; cd gcetcbendorsement && GOFLAGS= go test -vet=off -count=1 ./... 2>&1) | grep -E "^(FAIL|--- FAIL|ok )" | grep -v "^ok " | grep -v "localkm\|TestLoadKeys\|^FAIL$" | head -10)
@@ -33,9 +37,9 @@ rundemos() {
 }
 rm -f /tmp/seedcheck-$ID-demo-*.txt
 rundemos with; W=$?
-git apply -R $DIR/patch.diff
+$UNAPPLY $DIR/patch.diff
 rundemos without; WO=$?
-git apply $DIR/patch.diff
+$APPLY $DIR/patch.diff
 while read SRC REL; do rm -f $WT/$REL; done < /tmp/seedcheck-$ID-demos.txt
 echo "DEMO with-change rc=$W (want 1), without rc=$WO (want 0)"
 cd /verif
